@@ -26,6 +26,13 @@ def scenario(rng, k):
     if rng.random() < 0.7:
         steps.append(G.run_step(rng, 100 + rng.choice([0, 1, 50]), again=True, p_fail=0.4,
                                 jobs=rng.choice([None, 2])))
+    if rng.random() < 0.3:
+        # the same task NAME changes kind over time: command -> experiment (versions get recorded) -> command again, re-run in
+        # place; its unversioned output directory is a command's output and none of gc's business
+        steps += [{"cmd": "retype", "task": "//:cmd", "kind": "run_experiment"},
+                  G.run_step(rng, 2000000000, target="//:cmd", again=True, p_fail=0.0),      # (a clock ahead of the real one: ids are timestamps)
+                  {"cmd": "retype", "task": "//:cmd", "kind": "run_command"},
+                  G.run_step(rng, 2000000060, target="//:cmd", again=True, p_fail=0.0)]
     steps.append({"cmd": "plant", "entries": G.gc_plants(rng)})
     # every spelling and combination of the two flags: --dry-run must win whatever else is given
     steps.append({"cmd": "gcdry", "argv": ["gc"] + DRY_SPELLINGS[k % len(DRY_SPELLINGS)]})
